@@ -93,8 +93,8 @@ CLAIMED = {
     technique='Coq proof by case analysis over crash prefixes + fault injection on the implementation',
     design='6 C17'),
  'C18': dict(
-    text='Theorems about the model of NextGetter / get_next: the successor of v+ddd is requested as v+(n+1) in 3 digits through get_with on the same Sid; first version v001; formatted versions parse back, are distinct and ordered like numbers; 4-digit numbers are not versions (empty Sid); get_last(k) over a data set materialised as a tree is the member agreeing with the Sid off k that carries the greatest value (numeric for versions), the empty Sid iff there is none (levels served by the path finder, decidable guards evaluated on the live configuration). Tie: generated trees with empty / dense / sparse / maximal version sets, every Sid level, "*" / ">" versions, create(get_new) chains; oracle from the property text + model correspondence of get_last / get_next / get_new through FindInAll.',
-    note=TB + 'get_new chains over a tree and state-level Sids (served by constants) are correspondence + oracle; NextGetter is demo plug-in code with "version" / "v" / 3 digits built in.',
+    text='Theorems about the model of NextGetter / get_next: the successor of v+ddd is requested as v+(n+1) in 3 digits through get_with on the same Sid; first version v001; formatted versions parse back, are distinct and ordered like numbers; 4-digit numbers are not versions (empty Sid); get_last(k) over a data set materialised as a tree is the member agreeing with the Sid off k that carries the greatest value (numeric for versions), the empty Sid iff there is none (levels served by the path finder, decidable guards evaluated on the live configuration); get_new is the successor of the last existing version, which does not exist yet, or the empty Sid beyond v999, and k successive create(get_new) steps yield the next versions in order, strictly increasing, each new, until 999 (theorems by induction over the chain, instantiated on the live configuration). Tie: generated trees with empty / dense / sparse / maximal version sets, every Sid level, "*" / ">" versions, create(get_new) chains; oracle from the property text + model correspondence of get_last / get_next / get_new through FindInAll.',
+    note=TB + 'State-level Sids (served by constants) and lagging states are correspondence + oracle; NextGetter is demo plug-in code with "version" / "v" / 3 digits built in.',
     technique='Coq proof (version arithmetic, next_version) + correspondence + oracle on version workflows',
     design='6 C18'),
  'C19': dict(
